@@ -504,7 +504,7 @@ func c16script(c *ctx, idx int) {
 func c16(c *ctx) {
 	n := 40
 	if c.thorough() {
-		n = 500
+		n = 1500
 	}
 	for i := 0; i < n; i++ {
 		c16script(c, i)
@@ -513,7 +513,7 @@ func c16(c *ctx) {
 		c16wire(c, i)
 	}
 	if c.thorough() {
-		for i := 0; i < 20; i++ {
+		for i := 0; i < 40; i++ {
 			c16race(c, i)
 		}
 	}
